@@ -393,3 +393,110 @@ Proof.
   { rewrite <- (Zlt_Qlt 0). lia. }
   lra.
 Qed.
+
+(* ------------------------------------------------- stagnation witness *)
+(* A strictly decreasing squared norm 1 - t/2 on the step [0,1], threshold
+   97/100 (crossing at t = 3/50), norm_t_tol = 1/10: the first guess is
+   clamped to t_prev + norm_t_tol = 1/10, which becomes t_final; from then on
+   the bracket [0, 1/10] has width exactly norm_t_tol (not < norm_t_tol) and
+   every new guess is clamped to 1/10 again. *)
+Definition stag_o (n : nat) : opts QN := mkOpts QN n (1#10) (1#100) (1#1000).
+Definition stag_nrm2 : nat -> Q -> Q := fun _ t => 1 - (1#2) * t.
+Definition stag_lg : Q -> Q := fun x => x - 1.
+Definition stag_stp : nat -> Q -> Q -> Q := fun _ _ g => g.
+Definition stag_tg : Q := 97#100.
+
+Ltac eval_cond :=
+  match goal with
+  | |- context [if ?c then _ else _] =>
+      let v := eval vm_compute in c in change c with v; cbv iota
+  end.
+
+Lemma stag_step n f tries reqs :
+  fct_loop QN (stag_o n) stag_nrm2 stag_lg stag_stp (S f) tries 0 reqs
+           (1#10) 0 (1#10) 1 (19#20) stag_tg
+  = fct_loop QN (stag_o n) stag_nrm2 stag_lg stag_stp f (S tries) 0 ((1#10) :: reqs)
+             (1#10) 0 (1#10) 1 (19#20) stag_tg.
+Proof.
+  cbn [fct_loop]. cbv zeta. eval_cond.
+  set (g := clamp_guess QN (stag_o n) 0 (secant QN stag_lg 0 (1#10) 1 (19#20) stag_tg)).
+  assert (Eg : g = 1#10) by (vm_compute; reflexivity). rewrite Eg.
+  change (stag_stp 0%nat (1#10) (1#10)) with (1#10).
+  assert (En : stag_nrm2 0%nat (1#10) = 19#20) by (vm_compute; reflexivity). rewrite En.
+  eval_cond. eval_cond. reflexivity.
+Qed.
+
+Lemma stag_first n f tries reqs :
+  fct_loop QN (stag_o n) stag_nrm2 stag_lg stag_stp (S f) tries 0 reqs
+           1 0 1 1 (1#2) stag_tg
+  = fct_loop QN (stag_o n) stag_nrm2 stag_lg stag_stp f (S tries) 0 ((1#10) :: reqs)
+             (1#10) 0 (1#10) 1 (19#20) stag_tg.
+Proof.
+  cbn [fct_loop]. cbv zeta. eval_cond.
+  set (g := clamp_guess QN (stag_o n) 0 (secant QN stag_lg 0 1 1 (1#2) stag_tg)).
+  assert (Eg : g = 1#10) by (vm_compute; reflexivity). rewrite Eg.
+  change (stag_stp 0%nat 1 (1#10)) with (1#10).
+  assert (En : stag_nrm2 0%nat (1#10) = 19#20) by (vm_compute; reflexivity). rewrite En.
+  eval_cond. eval_cond. reflexivity.
+Qed.
+
+Lemma stag_forever n : forall f tries reqs,
+  exists rq, fct_loop QN (stag_o n) stag_nrm2 stag_lg stag_stp f tries 0 reqs
+                      (1#10) 0 (1#10) 1 (19#20) stag_tg = LoopEnd QN (tries + f) rq /\
+             (forall r, In r rq -> In r reqs \/ r = 1#10).
+Proof.
+  induction f as [|f IH]; intros tries reqs.
+  - exists reqs. split; [cbn [fct_loop]; rewrite Nat.add_0_r; reflexivity|auto].
+  - rewrite stag_step. destruct (IH (S tries) ((1#10) :: reqs)) as (rq & E & H).
+    exists rq. split; [rewrite E; f_equal; lia|].
+    intros r Hr. destruct (H r Hr) as [[<- | Hin] | ->]; auto.
+Qed.
+
+(* for every norm_steps the search fails, asking for t = 1/10 every time *)
+Lemma stag_never_found : forall n,
+  fst (find_collapse QN (stag_o n) stag_nrm2 stag_lg stag_stp 0 1 0 1 1 (1#2) stag_tg) = None /\
+  (forall r, In r (snd (find_collapse QN (stag_o n) stag_nrm2 stag_lg stag_stp 0 1 0 1 1 (1#2) stag_tg))
+             -> r = 1#10).
+Proof.
+  intros n. unfold find_collapse. change (norm_steps QN (stag_o n)) with n.
+  destruct n as [|n].
+  - cbn [fct_loop]. split; [reflexivity|intros r []].
+  - rewrite stag_first. destruct (stag_forever (S n) n 1%nat [1#10]) as (rq & E & H).
+    change (T QN) with Q in *. rewrite E. split; [reflexivity|].
+    intros r Hr. cbn [snd] in Hr. destruct (H r Hr) as [[<- | []] | ->]; reflexivity.
+Qed.
+
+(* the crossing is bracketed, within norm_t_tol after t_prev, and the norm
+   is strictly decreasing: nothing is wrong with the input *)
+Lemma stag_input_is_fine :
+  (forall (s : nat) t u, t < u -> stag_nrm2 s u < stag_nrm2 s t) /\
+  stag_nrm2 0%nat (3#50) == stag_tg /\ (3#50) - 0 < (1#10) /\
+  stag_nrm2 0%nat 1 <= stag_tg /\ stag_tg < stag_nrm2 0%nat 0 /\
+  (forall x y, 1 < x -> x <= y -> 0 < stag_lg x /\ stag_lg x <= stag_lg y).
+Proof.
+  unfold stag_nrm2, stag_tg, stag_lg. repeat split; try (intros; lra); try reflexivity.
+Qed.
+
+(* the proposed repair of the width test: `t_final <= t_prev + norm_t_tol`
+   (the same expression the clamp uses) instead of
+   `t_final - t_prev < norm_t_tol` *)
+Fixpoint fct_loop_w (o : opts QN) (nrm2 : nat -> Q -> Q) (lg : Q -> Q) (stp : nat -> Q -> Q -> Q)
+         (fuel tries sg : nat) (reqs : list Q) (cur tp tf no n tg : Q) : loopres QN :=
+  match fuel with
+  | O => LoopEnd QN tries reqs
+  | S f =>
+    let tries := S tries in
+    if Qle_bool tf (tp + norm_t_tol QN o) then Broke QN tf cur tries reqs
+    else
+      let g := clamp_guess QN o tp (secant QN lg tp tf no n tg) in
+      let s := stp sg cur g in
+      let n2 := nrm2 sg s in
+      if Qltb (Qabs (tg - n2)) (norm_tol QN o * tg) then Broke QN g s tries (g :: reqs)
+      else if Qltb n2 tg then fct_loop_w o nrm2 lg stp f tries sg (g :: reqs) s tp g no n2 tg
+      else fct_loop_w o nrm2 lg stp f tries sg (g :: reqs) s g tf n2 n tg
+  end.
+
+Lemma stag_repaired :
+  fct_loop_w (stag_o 5) stag_nrm2 stag_lg stag_stp 5 0 0 [] 1 0 1 1 (1#2) stag_tg
+  = Broke QN (1#10) (1#10) 2%nat [1#10].
+Proof. vm_compute. reflexivity. Qed.
